@@ -55,7 +55,12 @@ def check(ctx):
             if t.dtype != dtype:
                 ctx.fail("generator output is not in the requested dtype", case | {"series": k}, key=f"gen:{name}:dtype", detail=str(t.dtype))
             if not bool(t.isfinite().all()):
-                ctx.fail("generator output contains non-finite values", case | {"series": k}, key=f"gen:{name}:{k}:nonfinite")
+                # float32 sweeps reach magnitudes beyond the format (e^88): an overflow to +inf of a value that is that large is a
+                # limit of the dtype (like the underflow the property exempts) and is counted, not reported; NaN and -inf never are
+                if dname == "float32" and not bool(t.isnan().any()) and not bool((t == -math.inf).any()):
+                    ctx.stats["float32_overflow_to_inf"] += 1
+                else:
+                    ctx.fail("generator output contains non-finite values", case | {"series": k}, key=f"gen:{name}:{k}:nonfinite")
         want0 = {"spot": init}
         if name in ("heston", "rough_bergomi"):
             want0["variance"] = p["v0"]
@@ -94,6 +99,22 @@ def check(ctx):
             if k not in mv or not close_arr(arr, dec_flt(mv[k]), 1e-8, 1e-12):
                 ctx.disagree("gen", case | {"series": k}, arr, dec_flt(mv[k]) if k in mv else None)
                 break
+    # ---------------- corpus: witnesses of repaired defects run on every tier (they must stay repaired)
+    # generate_kou_jump multiplied exp(drift correction) by the product of exp(jumps): for large intensities the first overflows
+    # while the second underflows in float32 and inf * 0 = nan although the price itself is an ordinary number
+    for wi, kw in enumerate([
+            dict(n_paths=3, n_steps=20, init_state=(1.0,), sigma=0.5, mu=0.1, jump_per_year=500.0, jump_mean_up=0.02, jump_mean_down=0.2, jump_up_prob=0.3, dt=0.1),
+            dict(n_paths=2, n_steps=5, init_state=(2.0,), sigma=0.2, mu=0.1, jump_per_year=500.0, jump_mean_up=0.5, jump_mean_down=2.0, jump_up_prob=0.0, dt=0.1)]):
+        for sd in range(3):
+            torch.manual_seed(1000 + sd)
+            case = {"corpus": "kou_jump float32 inf*0", "witness": wi, "torch_seed": 1000 + sd, "params": {k: v for k, v in kw.items()}}
+            ctx.case(case, True, tag="corpus")
+            st, o, _ = call_impl(S.generate_kou_jump, dtype=torch.float32, **kw)
+            if st != "ok":
+                ctx.fail("generate_kou_jump raised on admissible parameters", case, key="gen:kou_jump:error", detail=o)
+            elif bool(o.isnan().any()) or not bool((o >= 0).all()):
+                ctx.fail("generate_kou_jump returns NaN / negative prices in float32 (inf * 0: drift correction overflows while the jump product underflows)",
+                         case, key="gen:kou_jump:spot:nonfinite", detail={"first_path": [float(x) for x in o[0].tolist()][:8]})
     # ---------------- instruments
     def build(name, dtype):
         kw = {"dtype": dtype}
@@ -156,7 +177,146 @@ def check(ctx):
                     ctx.fail("volatility is not the square root of variance", c2, key=f"instrument:{name}:volatility")
             if name not in ("CIRRate", "VasicekRate") and not bool((inst.spot > 0).all()):
                 ctx.fail("a price process is not positive", c2, key=f"instrument:{name}:positivity")
+    # ---------------- random-number engines (supplied "normals"): antithetic and Sobol/Box-Muller, and generators driven by them
+    from pfhedge.stochastic import randn_antithetic, randn_sobol_boxmuller
+    from pfhedge.stochastic.engine import RandnSobolBoxMuller
+    from torch.quasirandom import SobolEngine
+    eng_reqs, eng_meta = [], []
+    for it in range(40 if ctx.tier == "quick" else 600):
+        N, T = g.choice([1, 2, 3, 4, 5, 8, 16]), g.choice([1, 2, 3, 5])
+        dname = g.choice(["float64", "float32"])
+        dtype = getattr(torch, dname)
+        shuffle = g.chance(0.5)
+        case = {"engine": "randn_antithetic", "N": N, "T": T, "dtype": dname, "shuffle": shuffle}
+        ctx.case(case | {"it": it}, True, tag="engine")
+        ctx.traces += 1
+        # record the draws the engine consumes (torch.randn, torch.randperm) so that the model can be fed the same ones
+        rec_draws = {}
+        _randn, _randperm = torch.randn, torch.randperm
+
+        def _rn(*a, **k):
+            t = _randn(*a, **k)
+            rec_draws["z"] = t.clone()
+            return t
+
+        def _rp(*a, **k):
+            t = _randperm(*a, **k)
+            rec_draws["perm"] = t.clone()
+            return t
+        torch.randn, torch.randperm = _rn, _rp
+        try:
+            st, z, _ = call_impl(randn_antithetic, N, T, dtype=dtype, shuffle=shuffle)
+        finally:
+            torch.randn, torch.randperm = _randn, _randperm
+        if st == "ok" and dname == "float64" and "z" in rec_draws and tuple(z.shape) == (N, T):
+            for col in range(T):
+                rq = {"op": "antithetic", "n": N, "z": enc_flt([float(x) for x in rec_draws["z"][:, col].tolist()])}
+                if shuffle:
+                    rq["perm"] = [int(i) for i in rec_draws.get("perm", torch.arange(0)).tolist()]
+                eng_reqs.append(rq)
+                eng_meta.append((case | {"column": col}, [float(x) for x in z[:, col].tolist()], "antithetic"))
+        if st != "ok":
+            ctx.fail("randn_antithetic raised", case, key="engine:antithetic:error", detail=z)
+        else:
+            if tuple(z.shape) != (N, T) or z.dtype != dtype or not bool(z.isfinite().all()):
+                ctx.fail("randn_antithetic output is not a finite (paths, steps) tensor of the requested dtype", case, key="engine:antithetic:shape",
+                         detail={"shape": list(z.shape), "dtype": str(z.dtype)})
+            elif N % 2 == 0:
+                rows = sorted(tuple(r) for r in z.tolist())
+                neg = sorted(tuple(-x for x in r) for r in z.tolist())
+                if rows != neg:
+                    ctx.fail("randn_antithetic: the sample is not closed under negation (every draw must come with its mirror image)", case,
+                             key="engine:antithetic:pairs")
+        sc = g.chance(0.5)
+        seed = g.randint(0, 10 ** 6)
+        case = {"engine": "RandnSobolBoxMuller", "N": N, "T": T, "dtype": dname, "scramble": sc, "seed": seed}
+        ctx.case(case | {"it": it}, True, tag="engine")
+        eng = RandnSobolBoxMuller(scramble=sc, seed=seed)
+        st, z, _ = call_impl(eng, N, T, dtype=dtype)
+        if st != "ok":
+            ctx.fail("RandnSobolBoxMuller raised", case, key="engine:sobol:error", detail=z)
+        else:
+            if tuple(z.shape) != (N, T) or z.dtype != dtype or not bool(z.isfinite().all()):
+                ctx.fail("RandnSobolBoxMuller output is not a finite tensor of the requested shape and dtype", case, key="engine:sobol:shape",
+                         detail={"shape": list(z.shape), "dtype": str(z.dtype)})
+            else:
+                numel = N * T
+                u = SobolEngine(2, scramble=sc, seed=seed).draw(numel // 2 + 1).to(dtype=torch.float64)
+                z0 = [math.sqrt(-2 * math.log(max(float(a), 1e-10))) * math.cos(2 * math.pi * float(b)) for a, b in u.tolist()]
+                z1 = [math.sqrt(-2 * math.log(max(float(a), 1e-10))) * math.sin(2 * math.pi * float(b)) for a, b in u.tolist()]
+                want = (z0 + z1)[:numel]
+                tol = 1e-9 if dname == "float64" else 2e-5
+                if any(abs(a - b) > tol * max(1.0, abs(b)) for a, b in zip(z.reshape(-1).tolist(), want)):
+                    ctx.fail("RandnSobolBoxMuller output is not the Box-Muller transform of the Sobol points", case, key="engine:sobol:value")
+                if dname == "float64":
+                    eng_reqs.append({"op": "sobol_bm", "n": numel, "eps": float_bits(1e-10), "u": enc_flt([[float(a), float(b)] for a, b in u.tolist()])})
+                    eng_meta.append((case, [float(x) for x in z.reshape(-1).tolist()], "sobol_bm"))
+        # generators / instruments driven by these engines
+        for ename, engine in (("antithetic", randn_antithetic), ("sobol", RandnSobolBoxMuller(scramble=True, seed=seed))):
+            gname = g.choice(["brownian", "geometric_brownian", "merton_jump", "kou_jump", "MertonJumpStock", "KouJumpStock"])
+            n_ = g.choice([1, 2, 6])
+            c2 = {"engine": ename, "generator": gname, "N": N, "n": n_, "dtype": dname}
+            ctx.case(c2 | {"it": it}, True, tag="engine-driven")
+            ctx.stats[f"engine-driven={gname}"] += 1
+            try:
+                if gname == "brownian":
+                    o = S.generate_brownian(N, n_, init_state=(0.5,), dtype=dtype, engine=engine)
+                    first = 0.5
+                elif gname == "geometric_brownian":
+                    o = S.generate_geometric_brownian(N, n_, init_state=(1.5,), dtype=dtype, engine=engine)
+                    first = 1.5
+                elif gname == "merton_jump":
+                    o = S.generate_merton_jump(N, n_, init_state=(1.5,), dtype=dtype, engine=engine)
+                    first = 1.5
+                elif gname == "kou_jump":
+                    o = S.generate_kou_jump(N, n_, init_state=(1.5,), dtype=dtype, engine=engine)
+                    first = 1.5
+                else:
+                    inst = getattr(I, gname)(dtype=dtype, engine=engine)
+                    inst.simulate(n_paths=N, time_horizon=(n_ - 1) / 250)
+                    o = inst.spot
+                    first = 1.0
+            except Exception as e:  # noqa
+                ctx.fail("a generator driven by a supplied engine raised", c2, key=f"engine-driven:{gname}:error", detail=repr(e)[:200])
+                continue
+            if tuple(o.shape) != (N, n_) or o.dtype != dtype or not bool(o.isfinite().all()):
+                ctx.fail("a generator driven by a supplied engine returned a malformed series", c2, key=f"engine-driven:{gname}:shape",
+                         detail={"shape": list(o.shape), "dtype": str(o.dtype)})
+                continue
+            if any(float(x) != float(torch.tensor(first, dtype=dtype)) for x in o[:, 0].tolist()):
+                ctx.fail("the first column differs from the requested initial state (supplied engine)", c2, key=f"engine-driven:{gname}:first-column")
+            if gname != "brownian" and not bool((o > 0).all()):
+                ctx.fail("an exponential-type price process is not positive (supplied engine)", c2, key=f"engine-driven:{gname}:positivity")
+    try:
+        eouts = ctx.driver(eng_reqs)
+    except DriverBroken as e:
+        ctx.ties_broken.append({"kind": "driver", "detail": str(e)[:1500]})
+        eouts = []
+    for (case, real, op), mo in zip(eng_meta, eouts):
+        if "ok" not in mo:
+            ctx.disagree(op, case, real, mo)
+            continue
+        mv = dec_flt(mo["ok"])
+        # antithetic: negation and selection are exact; Box-Muller goes through log / sqrt / cos / sin
+        ok_ = (mv == real) if op == "antithetic" else close_arr(real, mv, 1e-9, 1e-12)
+        if not ok_:
+            ctx.disagree(op, case, real, mv)
+    # the named tuples returned by the stochastic-volatility generators: volatility = sqrt(max(variance, 0))
+    for it in range(10 if ctx.tier == "quick" else 100):
+        N, n_ = g.choice([1, 3]), g.choice([1, 2, 6])
+        o = S.generate_heston(N, n_, sigma=g.choice([0.2, 2.0]), dtype=torch.float64)
+        c2 = {"tuple": "heston", "N": N, "n": n_}
+        ctx.case(c2 | {"it": it}, True, tag="tuple")
+        if not torch.equal(o.volatility, o.variance.clamp(min=0.0).sqrt()):
+            ctx.fail("generate_heston(...).volatility is not the square root of the (clamped) variance", c2, key="gen:heston:volatility")
+        o = S.generate_rough_bergomi(N, max(2, n_), dtype=torch.float64)
+        if not torch.equal(o.volatility, o.variance.clamp(min=0.0).sqrt()):
+            ctx.fail("generate_rough_bergomi(...).volatility is not the square root of the (clamped) variance", c2, key="gen:rough_bergomi:volatility")
+        o = S.generate_local_volatility_process(N, n_, lambda t, s: 0.2 + 0.1 * s, dtype=torch.float64)
+        if not torch.allclose(o.variance, o.volatility.square()):
+            ctx.fail("generate_local_volatility_process(...).variance is not the square of the volatility", c2, key="gen:local_volatility:variance")
     return ctx.finish(
         rule="nine generators x parameter sweeps (non-default initial states, high vol-of-vol / tiny variance, zero and high jump intensities) x "
-             "float32/float64; eight primary instruments with repeated simulate() under changing path counts / horizons / initial states; every case "
+             "float32/float64; random-number engines (antithetic: shape, dtype, closure under negation; Sobol/Box-Muller: equals the Box-Muller "
+             "transform of the Sobol points) and generators / instruments driven by them; named-tuple volatility/variance; eight primary instruments with repeated simulate() under changing path counts / horizons / initial states; every case "
              "non-trivial; distinct = sha1 of canonical case")
